@@ -139,6 +139,15 @@ func TestWriteReplays(t *testing.T) {
 		Outcomes: []Outcome{{}, {Throttle: true, ThrottleUS: 3_600_000_000}},
 		Stop:     &Stop{Kind: "shutdown", Mode: "wait", At: 1, DelayUS: 300}},
 		Companion: &Companion{Payload: companionLogs(), Outcome: "ok", ReleaseUS: 5000}})
+	// 15. multiplier 0 is legal and means a constant back-off of initial_interval: 12 failures 4ms apart fit a 110ms budget
+	// (an envelope that grows instead - 4,6,9,13.5,20,20,... - runs out of budget after 7 retries)
+	write("15-zero-multiplier-constant-backoff.json", "retry-policy", Script{Signal: sig.Logs, Payload: full,
+		Backoff:  Backoff{Enabled: true, InitialUS: 4000, MultX100: 0, RandX100: 0, MaxIntUS: 20000, MaxElapsedMS: 110},
+		Outcomes: []Outcome{{}, {}, {}, {}, {}, {}, {}, {}, {}, {}, {}, {}}})
+	// 16. multiplier 0.5: shrinking back-off 8,4,2,1,0.5ms
+	write("16-multiplier-below-one.json", "retry-policy", Script{Signal: sig.Logs, Payload: full, DeadlineMS: 60000,
+		Backoff:  Backoff{Enabled: true, InitialUS: 8000, MultX100: 50, RandX100: 0, MaxIntUS: 20000, MaxElapsedMS: 100},
+		Outcomes: []Outcome{{}, {}, {}, {}, {}, {OK: true}}})
 	// 6. persistent queue control: permanent error, clean shutdown, nothing may come back
 	write("06-persist-permanent-control.json", "shutdown-persist", PScript{Script: Script{Signal: sig.Logs, Payload: full, Backoff: bo,
 		Outcomes: []Outcome{{}, {Perm: true, Wrap: 1}}}})
